@@ -3,6 +3,7 @@ module verifharness
 go 1.26.4
 
 require (
+	github.com/google/go-cmp v0.7.0
 	github.com/hashicorp/yamux v0.1.2
 	github.com/temporalio/s2s-proxy v0.0.0
 	go.temporal.io/api v1.62.8
